@@ -1,6 +1,6 @@
 (* C10 - sectors: number operators are diagonal with eigenvalue = occupation count (all modes/states). *)
 From Coq Require Import NArith List Bool.
-From OFV Require Import Base.Cplx Base.Lin Sem.PauliSem Sem.FermiSem Model.LadderOp Thm.C10.NumberOp.
+From OFV Require Import Base.Cplx Base.Lin Sem.PauliSem Sem.FermiSem Model.LadderOp Check.Sectors Thm.C10.NumberOp Thm.C10.NumberIndices.
 Import ListNotations.
 Theorem C10_number_mode_diagonal : forall j s,
   leq N.eqb (fapply_word [(j, true); (j, false)] s) (if bit s j then [(C1, s)] else []).
@@ -10,3 +10,11 @@ Theorem C10_number_operator_eigen : forall n s k,
   coeff N.eqb k (fden (number_op n) s) = Cmul (Cnat (occ_count s n)) (coeff N.eqb k [(C1, s)]).
 Proof. exact number_op_eigen. Qed.
 Print Assumptions C10_number_operator_eigen.
+
+(* [F] jw_number_indices (model: index sums over itertools.combinations) for EVERY n_qubits and particle
+   number lists each x < 2^n with k bits set exactly once *)
+Theorem C10_number_indices_exact : forall n k,
+  NoDup (number_indices n k) /\
+  forall x, In x (number_indices n k) <-> ((x < 2 ^ N.of_nat n)%N /\ popc x = k).
+Proof. exact number_indices_exact. Qed.
+Print Assumptions C10_number_indices_exact.
